@@ -64,6 +64,12 @@ CLASSES = {
     'double_sp': b'read  m:p', 'long_valid': b'change m:s "' + b'a' * 1500 + b'"', 'long_junk': b'x' * 1100,
     'unknown': b'frobnicate m:p', 'c_request': b'request', 'c_request_x': b'request m:p', 'c_ident': b'_ident',
     'c_help_d': b'help x 1', 'nonascii_badjson': b'read\xc3\xa9 m:p {bad', 'c_ident_x': b'_ident m:p',
+    # data nested deeper than the recursion limit of a recursive JSON parser (json.loads: RecursionError)
+    'deep_list_open': b'change m:p ' + b'[' * 6000, 'deep_dict_open': b'change m:s ' + b'{"a":' * 6000,
+    'deep_list_50k': b'do m:cmd ' + b'[' * 50000, 'deep_dict_50k': b'change m:p ' + b'{"a":' * 50000,
+    'deep_list': b'change m:p ' + b'[' * 6000 + b']' * 6000,
+    'deep_dict': b'logging m ' + b'{"a":' * 6000 + b'1' + b'}' * 6000,
+    'huge_int': b'change m:p ' + b'9' * 5000,          # int(): more digits than sys.get_int_max_str_digits()
 }
 CORE = ['read_p', 'change_p3', 'change_p7', 'activate', 'deactivate_m', 'empty', 'bad_json', 'lead_badjson',
         'bad_utf8_act', 'crlf', 'c_ident', 'unknown']     # == Core of Gen_Wire_classes_*.cfg
@@ -98,6 +104,27 @@ def _dec(b):
         return None
 
 
+def _balanced(text):
+    """brackets outside strings match (iterative; for data too deep for the recursive parser)"""
+    stack, instr, esc = [], False, False
+    for c in text:
+        if instr:
+            if esc:
+                esc = False
+            elif c == '\\':
+                esc = True
+            elif c == '"':
+                instr = False
+        elif c == '"':
+            instr = True
+        elif c in '[{':
+            stack.append(c)
+        elif c in ']}':
+            if not stack or stack.pop() != ('[' if c == ']' else '{'):
+                return False
+    return not stack and not instr
+
+
 # ---------------------------------------------------------------- alpha for input lines
 @functools.lru_cache(maxsize=8192)
 def a_in(line):
@@ -117,12 +144,16 @@ def a_in(line):
         else:
             try:
                 _STRICT.decode(dt)
+            except RecursionError:        # too deep for this parser: broken only if the brackets do not match
+                jsonbad = not _balanced(dt)
+                jsonunclear = not jsonbad
             except ValueError:
                 try:
                     json.loads(dt)
                     jsonunclear = True
                 except ValueError:
-                    jsonbad = True
+                    jsonbad = len(dt) < 4000 or not dt.isdigit()      # (huge integers: a parser limit, unclear)
+                    jsonunclear = not jsonbad
     decfail = _dec(s) is None or jsonbad
     act = 'help' if blank else (au or '')
     mal = False
@@ -316,8 +347,9 @@ class FakeSocket:
         if self.role == 'main':
             parts = (self.acc + piece).split(b'\n')
             self.acc = parts.pop()
-            self.world.events.append({'ev': 'chunk_in', 'reqs': [a_in(x) for x in parts]})
-            self.world.raw.append([x[:80].decode('latin-1') for x in parts])
+            if parts:                 # (segments completing no line tell the spec nothing)
+                self.world.events.append({'ev': 'chunk_in', 'reqs': [a_in(x) for x in parts]})
+                self.world.raw.append([x[:80].decode('latin-1') for x in parts])
         return piece
 
     def sendall(self, data):
@@ -480,7 +512,9 @@ def _replay_classes(item):
 _SPECS = [b'm:p', b'm:s', b'm:hw', b'm', b'm:cmd', b'zz', b'.', b'm:status', b'm:zz', b'M:p', b'm:p:q']
 _DATA = [b'3', b'7.5', b'-1', b'99', b'1e400', b'"hi"', b'"a b  c"', b'null', b'true', b'[1,2]', b'{"a":1}', b'NaN',
          b'Infinity', b'-Infinity', b'"\\ud800"', b'"\xc3\xa9"', b'0', b'""', b'"debug"', b'"off"', b'"bogus"',
-         b'1e-320', b'12345678901234567890123', b'[[[[[[[[[[]]]]]]]]]]', b'{bad', b'3 4', b'"' + b'z' * 1200 + b'"']
+         b'1e-320', b'12345678901234567890123', b'[[[[[[[[[[]]]]]]]]]]', b'{bad', b'3 4', b'"' + b'z' * 1200 + b'"',
+         b'[' * 6000, b'{"a":' * 6000, b'[' * 3000 + b']' * 3000, b'{"a":' * 4000 + b'0' + b'}' * 4000, b'[' * 50000,
+         b'[{"a":' * 5000, b'9' * 5000, b'-' + b'9' * 4400 + b'.5', b'[1' + b',1' * 20000 + b']']
 _INSERT = [b'\n', b'\r', b'\r\n', b' ', b'  ', b'\t', b'\x00', b'\xff', b'\xc3', b'\xe2\x82', b'\xa9', b'"', b'{', b'[',
            b':', b'\x0b', b'\x1f', b'\xc2\xa0', b'\xe2\x80\xa8', b'NaN', b'_', b'error_', b'\\']
 _ACTIONS = [b'*IDN?', b'describe', b'read', b'change', b'do', b'ping', b'activate', b'deactivate', b'logging', b'help',
@@ -498,7 +532,7 @@ def _gen_line(rnd):
             line += b' ' + rnd.choice(_SPECS)
             if rnd.random() < 0.6:
                 line += b' ' + rnd.choice(_DATA)
-    if len(line) > 300 and rnd.random() < 0.7:
+    if len(line) > 300 and rnd.random() < 0.5:
         line = line[:40] + line[-5:]
     for _ in range(rnd.choice([0, 0, 0, 1, 1, 2, 3])):      # byte level mutation
         m = rnd.random()
